@@ -123,6 +123,10 @@ func runC03(c *Ctx) {
 	r.Rule("R2", "single ordered consumer: receives from the inbound queue occur only in one member goroutine (dispatching; one spawn site outside loops) and in discard-only drain code started by the teardown after the connected flag is cleared")
 	r.Rule("R3", "awaited chain: from the consumer's receive to every handler invocation through the internal and foreground sets every edge is a call, a defer or a joined go; every call of Conn.dispatch with a received line is a plain call in the consumer")
 	r.Rule("R4", "CONNECTED is dispatched only from the internal 001 handler, awaited, as a defer or after every tracker call / Config.Me store of that handler")
+	r.Rule("R8", "DISCONNECTED waits for the event loop only if the WaitGroup count is right: Add constants equal the member spawns on every path and every member goroutine calls Done exactly once on each exit (shared with C06.R7) - a second Done lets the next connection's teardown stop waiting while a foreground handler is still running")
+	c.wgAccounting("R8")
+	r.Rule("R7", "one Connect at a time: the already-connected test, the store connected = true and the start of every connection goroutine lie in one uninterrupted hold of the connection mutex (a lock released around the dial lets two overlapping Connect calls both pass the test: two event loops then read one inbound queue)")
+	c.connectAtomicRule("R7")
 	r.Rule("R6", "event loops of successive connections never overlap: the teardown waits for the connection goroutines (Wait on the connection WaitGroup) while holding the connection mutex exclusively, and every go statement that starts a member goroutine runs with that mutex held exclusively, so a reconnect cannot start a second loop while the old one is still inside a handler")
 	r.Rule("R5", "DISCONNECTED is dispatched only in the teardown, dominated by Wait on the connection WaitGroup; the consumer is a member and dispatches nothing after its Done")
 
@@ -533,4 +537,93 @@ func (c *Ctx) loopExclusionRule(rule string) {
 	}
 	r.Floor(rule, "Wait sites on the connection WaitGroup", nWait, 1)
 	r.Floor(rule, "member spawn sites", nSpawn, 3)
+}
+
+// connectAtomicRule: the test "already connected?", the store connected=true
+// and the start of every connection goroutine lie in one uninterrupted hold of
+// the connection mutex. Otherwise two overlapping Connect calls both pass the
+// test and one Conn gets two event loops.
+func (c *Ctx) connectAtomicRule(rule string) {
+	r, a := c.R, c.A
+	if !r.Anchor(rule, "connect routine, connected flag and connection mutex", a.Connect != nil && a.Connected != nil && a.Mu != nil) {
+		return
+	}
+	funcs := c.clientFuncs()
+	ls := c.ComputeLocksets(funcs)
+	k := &critCtx{c: c, ls: ls, lock: "client.Conn." + a.Mu.Name(), flows: map[*ssa.Function]map[ssa.Instruction]acqState{}}
+	type site struct {
+		what string
+		in   ssa.Instruction
+		ctx  []ssa.CallInstruction
+	}
+	var sites []site
+	// the connect routine and what it calls synchronously (one helper level per step, depth 3)
+	var visit func(fn *ssa.Function, ctx []ssa.CallInstruction, depth int)
+	seen := map[*ssa.Function]bool{}
+	visit = func(fn *ssa.Function, ctx []ssa.CallInstruction, depth int) {
+		if seen[fn] || depth > 3 {
+			return
+		}
+		seen[fn] = true
+		funcInstrs(fn, func(in ssa.Instruction) {
+			switch t := in.(type) {
+			case *ssa.UnOp:
+				if t.Op == token.MUL {
+					if fv, _ := fieldOf(t.X); fv == a.Connected {
+						// only loads that decide a branch (the refusal test)
+						for _, ref := range *t.Referrers() {
+							if _, isIf := ref.(*ssa.If); isIf {
+								sites = append(sites, site{"test of the connected flag", in, ctx})
+							}
+						}
+					}
+				}
+			case *ssa.Store:
+				if fv, _ := fieldOf(t.Addr); fv == a.Connected {
+					if kc, ok := t.Val.(*ssa.Const); ok && kc.Value != nil && kc.Value.String() == "true" {
+						sites = append(sites, site{"store connected = true", in, ctx})
+					}
+				}
+			case *ssa.Go:
+				for _, e := range c.Callees(t) {
+					if e.Callee != nil && a.IsMember(e.Callee) {
+						sites = append(sites, site{"start of " + c.FuncKey(e.Callee), in, ctx})
+					}
+				}
+			case *ssa.Call:
+				if cal := t.Call.StaticCallee(); cal != nil && !t.Call.IsInvoke() && c.InModuleFn(cal) && cal.Package() == c.Client && cal != a.Teardown && cal != a.TeardownCore {
+					visit(cal, append(append([]ssa.CallInstruction{}, ctx...), t), depth+1)
+				}
+			}
+		})
+	}
+	visit(a.Connect, nil, 0)
+	first := ""
+	nTest, nStore, nGo := 0, 0, 0
+	for _, s := range sites {
+		got := k.resolve(s.in, s.ctx)
+		if got != "" && strings.HasPrefix(got, "entry:") {
+			got = "" // held by some caller we did not come through: not an identified hold
+		}
+		switch {
+		case strings.HasPrefix(s.what, "test"):
+			nTest++
+		case strings.HasPrefix(s.what, "store"):
+			nStore++
+		default:
+			nGo++
+		}
+		ok, why := true, "critical section "+got
+		if got == "" {
+			ok, why = false, "not inside an identified hold of the connection mutex"
+		} else if first == "" {
+			first = got
+		} else if got != first {
+			ok, why = false, "critical section "+got+", but the connected flag was tested in "+first+": the mutex is released in between, so two overlapping Connect calls both proceed"
+		}
+		r.Add(rule, "connect-atomic:"+s.what, c.InstrPos(s.in), c.FuncKey(s.in.Parent()), s.what+" lies in the same uninterrupted hold of the connection mutex as the rest of the connect decision", ok, why)
+	}
+	r.Floor(rule, "tests of the connected flag in the connect routine", nTest, 1)
+	r.Floor(rule, "stores of connected = true", nStore, 1)
+	r.Floor(rule, "member goroutine starts in the connect routine", nGo, 3)
 }
